@@ -480,7 +480,7 @@ def label_call(ctx, call, exp, col, sets, layouts, k, prev_build):
         (a, b), = exp.must
         ctx.label("single-pair")
         if exp.index1[a] == 0 and exp.index2[b] == 0:
-            ctx.label("only-00-as-passed")
+            ctx.label("only-00")
     if not exp.must and not exp.may:
         ctx.label("no-pairs")
     for (a, b) in list(exp.must)[:200]:
@@ -774,9 +774,14 @@ def history_cases(draw):
         sets.append(P.shifted(sets[src], f * r_km, bearing,
                               10000 * (d + 1)))
     layouts = []
+    plain_layout = draw(st.booleans())
     for k, pset in enumerate(sets):
-        labels = draw(P.permutations_of(len(pset["id"])))
-        layouts.append({"dim": "n", "labels": labels})
+        if plain_layout:
+            labels = draw(P.permutations_of(len(pset["id"])))
+            layouts.append({"dim": "n", "labels": labels})
+        else:
+            sets[k], lay = draw(layouts_for(pset, True))
+            layouts.append(lay)
     all_times = sorted({t for s in sets for t in s["t_ms"]})
     steps = []
     nsteps = draw(st.integers(2, 6))
